@@ -257,6 +257,14 @@ fn collect_cached_files(cache_dir: &Path) -> Result<(Vec<CachedFile>, u64)> {
     for maybe_entry in std::fs::read_dir(cache_dir)? {
         count += 1;
         if let Ok(entry) = maybe_entry {
+            // Cache keys never start with a dot: such names are reserved
+            // for Kismet's own subdirectories and for application data
+            // stored alongside cached files.  Never count nor evict them.
+            if entry.file_name().as_encoded_bytes().first() == Some(&b'.') {
+                count -= 1;
+                continue;
+            }
+
             let meta = match entry.metadata() {
                 Ok(meta) => meta,
                 Err(e) if is_absent_file_error(&e) => continue,
